@@ -224,7 +224,8 @@ def run_pair(ops_text, harness_bin, tag="run", timeout=1200, harness_env=None):
     with open(ops_p, "w") as f:
         f.write(ops_text)
     env = dict(os.environ)
-    env["ASAN_OPTIONS"] = "detect_leaks=0:abort_on_error=0:exitcode=77"
+    # a mutated loader that asks for gigabytes is reported by ASan at once instead of thrashing
+    env["ASAN_OPTIONS"] = "detect_leaks=0:abort_on_error=0:exitcode=77:max_allocation_size_mb=1024:hard_rss_limit_mb=6000"
     env["UBSAN_OPTIONS"] = "print_stacktrace=1:halt_on_error=1:exitcode=78"
     env["BGH_TMP"] = os.path.join(WORK, "tmp")
     os.makedirs(env["BGH_TMP"], exist_ok=True)
